@@ -26,6 +26,26 @@ Streams
             ones; attribute and value edits between two runs of the same Validation object; link
             resolution; user rules that raise; the library's non-default rules.  Steps the Lean model
             has no macro for are checked by the oracle only (the model keeps its registry over them).
+            Since seeded round 3 a second batch of wide cases runs over documents that name repositories
+            (on the Document, on Sections, inherited) of terminologies the case brings along, with the
+            on-demand terminology rules registered often, repository edits and "another document is
+            validated in between" steps; what the two terminology rules have to report is restated by
+            the harness from its own copy of the terminologies (no library state shared).
+  terms   : (added after seeded round 3, oracle-only) histories over SEVERAL documents in one process:
+            2-5 small documents x 2-4 terminologies (in odml's table, behind a file:// URL, unreachable;
+            repositories on the Document / on a Section / inherited / none; Section types in several
+            spellings, absent from the terminology, twice in it; twin documents that differ in the
+            repository only); validations of a Document, a Section, a Property with a reset Validation
+            holding the terminology rules (+ user rules of several callable shapes, default rules), with
+            Validation(obj) / Document.validate() after the rules have been registered globally; the same
+            Validation object run again after an edit of a repository, a type, a name, after its object
+            moved to another document or left it; clones with and without keep_id into another
+            document; round trips through a writer and a reader.  Per validation: objects (all documents
+            and the terminologies) unchanged, re-run equal, registry unchanged, issues = the restated
+            rules.  In the end every document is validated once more, twice, in both orders.
+  termsx  : batches of terms histories here and in a fresh interpreter that performs the edits but none
+            of the earlier validations and looks at the histories and their documents in the opposite
+            order (other PYTHONHASHSEED, every third batch another locale): same final issues.
 """
 import io
 import json
@@ -68,7 +88,29 @@ def custom_4(obj):
     yield ValidationError(obj, "c4", LABEL_WARNING, IssueID.custom_validation)
 
 
-CUSTOM = {1: custom_1, 2: custom_2, 3: custom_3, 4: custom_4}
+class UserRules(object):
+    """Other shapes a user rule may have (round 3): a bound method, a functools.partial, a callable
+    object without a __name__, a plain function that returns a list.  Oracle-only, reset objects only."""
+
+    def method(self, obj):
+        from odml.validation import ValidationError, IssueID, LABEL_WARNING
+        yield ValidationError(obj, "c5", LABEL_WARNING, IssueID.custom_validation)
+
+    def __call__(self, obj):
+        from odml.validation import ValidationError, IssueID, LABEL_ERROR
+        return [ValidationError(obj, "c7", LABEL_ERROR, IssueID.custom_validation)]
+
+
+def custom_8(obj):
+    from odml.validation import ValidationError, IssueID, LABEL_WARNING
+    if getattr(obj, "name", None) in ("zp", "Duration", "a"):
+        return [ValidationError(obj, "c8", LABEL_WARNING, IssueID.custom_validation)] * 2
+    return ()
+
+
+_USER_RULES = UserRules()
+CUSTOM = {1: custom_1, 2: custom_2, 3: custom_3, 4: custom_4, 5: _USER_RULES.method,
+          6: __import__("functools").partial(custom_1), 7: _USER_RULES, 8: custom_8}
 # rules the library ships but does not register by default ("should be added on demand");
 # the Lean model does not know them: histories using them are decided by the oracle alone
 EXTRA_RULES = {"section": ["section_repository_present"], "property": ["property_terminology_check"]}
@@ -216,6 +258,183 @@ def apply_directly(table, root, refs):
     return c08.issue_list(out, refs)
 
 
+# ----------------------------------------------------------------------------- terminologies
+# (added after seeded round 3)  Documents may name a repository - on the Document, on a Section, or
+# inherited - and the two rules the library ships "for use on demand" look the Section type / the
+# Property name up in the terminology found there.  A case brings its own terminologies:
+#   mem     : put into odml's table of loaded terminologies (what the library's own tests do)
+#   file    : an XML file of the case's scratch directory behind a file:// URL, loaded by the library
+#   missing : a URL nothing can be loaded from
+# The harness keeps its OWN copy of every terminology document (_TERMS): what the two rules have to
+# report is restated from it below, without calling anything of odml.validation / odml.terminology,
+# so that no state the library keeps between validations can be shared with the expectation.
+_TERMS = {}             # url -> the harness's copy of the terminology Document (None: unreachable)
+_TERM_FILES = []        # base names of terminology files of this case (the loader caches copies)
+
+
+def term_document(secs):
+    import odml
+    doc = odml.Document()
+
+    def mk(spec, parent):
+        sec = odml.Section(name=spec["name"], type=spec["type"], parent=parent)
+        for name in spec.get("props", []):
+            odml.Property(name=name, parent=sec)
+        for sub in spec.get("subs", []):
+            mk(sub, sec)
+    for spec in secs:
+        mk(spec, doc)
+    return doc
+
+
+def register_terms(terms, token, tmp):
+    """-> {key: url}.  Must run before a document that names one of them is built: the repository
+    setter starts a loader thread for every URL that is not in the table yet."""
+    import odml.terminology
+    from odml.tools.odmlparser import ODMLWriter
+    urls = {}
+    for t in terms or []:
+        kind = t.get("kind", "mem")
+        if kind == "file" and tmp is None:
+            kind = "mem"
+        if kind == "missing":
+            url = t.get("url") or "file:///nonexistent/c19term_%s_%s.xml" % (token, t["key"])
+            _TERMS[url] = None
+        elif kind == "file":
+            name = "c19term_%s_%s_%d.xml" % (token, t["key"], os.getpid())
+            path = os.path.join(tmp(), name)
+            with io.open(path, "w", encoding="utf-8") as fh:
+                fh.write(ODMLWriter("XML").to_string(term_document(t["secs"])))
+            url = "file://" + path
+            _TERMS[url] = term_document(t["secs"])
+            _TERM_FILES.append(name)
+        else:
+            url = "c19term://%s/%s.xml" % (token, t["key"])
+            odml.terminology.terminologies[url] = term_document(t["secs"])
+            _TERMS[url] = term_document(t["secs"])
+        urls[t["key"]] = url
+    for url in REPO_EDITS:
+        if url:
+            _TERMS.setdefault(url, None)       # the repositories edits switch to: nothing to load there
+    return urls
+
+
+def unregister_terms(before_threads=()):
+    """Takes the case's terminologies out of the library's table again, waits for the loader threads
+    the case has started and removes the copies the loader has cached."""
+    import threading
+    for thread in threading.enumerate():
+        if thread not in before_threads and thread is not threading.current_thread():
+            thread.join(10)
+    try:
+        import odml.terminology as ot
+        for url in list(_TERMS):
+            ot.terminologies.pop(url, None)
+            ot.terminologies.loading.pop(url, None)
+    except Exception:
+        pass
+    _TERMS.clear()
+    cache = os.path.join(tempfile.gettempdir(), "odml.cache")
+    while _TERM_FILES:
+        name = _TERM_FILES.pop()
+        try:
+            for entry in os.listdir(cache):
+                if entry.endswith("." + name):
+                    os.remove(os.path.join(cache, entry))
+        except OSError:
+            pass
+
+
+def effective_repository(sec):
+    """The repository attribute of the Section or, if it has none, of the nearest parent that has."""
+    obj = sec
+    while obj is not None:
+        repo = getattr(obj, "repository", None)
+        if repo is not None:
+            return repo
+        obj = getattr(obj, "parent", None)
+    return None
+
+
+def term_lookup(sec):
+    """-> (state, terminology Section): norepo | unreachable | absent | found, or unknown when the
+    harness cannot tell (a URL that is not the case's, a type that is not a non-empty string: what
+    'the Section type is present in the terminology' means for those the property does not say)."""
+    repo = effective_repository(sec)
+    if repo is None:
+        return "norepo", None
+    if repo not in _TERMS:
+        return "unknown", None
+    term = _TERMS[repo]
+    if term is None:
+        return "unreachable", None
+    typ = sec.type
+    if not isinstance(typ, str) or not typ:
+        return "unknown", None
+    stack = list(term.sections)
+    while stack:                       # document order: a Section before its sub-Sections
+        t = stack.pop(0)
+        if not isinstance(t.type, str):
+            return "unknown", None
+        if t.type.lower() == typ.lower():
+            return "found", t
+        stack = list(t.sections) + stack
+    return "absent", None
+
+
+def restated_extra(name, obj):
+    """What one of the two on-demand rules has to report on obj: number of warnings, or None if the
+    harness cannot tell."""
+    if name == "section_repository_present":
+        state, _t = term_lookup(obj)
+        if state == "unknown":
+            return None
+        return 0 if state == "found" else 1
+    if name == "property_terminology_check":
+        if obj.parent is None:
+            return 0
+        state, t = term_lookup(obj.parent)
+        if state == "unknown":
+            return None
+        if state != "found":
+            return 0
+        return 0 if any(p.name == obj.name for p in t.properties) else 1
+    return None
+
+
+def expected_of(funcs, klass, obj):
+    """The issues the given rule functions have to yield on one object: the on-demand terminology
+    rules restated, every other rule by calling it."""
+    from odml import validation
+    out = []
+    for h in funcs:
+        name = getattr(h, "__name__", "")
+        if name in EXTRA_RULES.get(klass, ()) and getattr(validation, name, None) is h:
+            n = restated_extra(name, obj)
+            if n is not None:
+                vid = getattr(validation.IssueID, name)
+                out.extend([Expected(obj, vid, validation.LABEL_WARNING)] * n)
+                continue
+        out.extend(h(obj))
+    return out
+
+
+class Expected(object):
+    """An issue the harness expects (same three fields c08.issue_list reads)."""
+
+    def __init__(self, obj, validation_id, rank):
+        self.obj = obj
+        self.validation_id = validation_id
+        self.rank = rank
+
+
+def expected_issues(table, root, refs):
+    out = []
+    for klass, obj in walk(root):
+        out.extend(expected_of(table.get(klass, ()), klass, obj))
+    return c08.issue_list(out, refs)
+
+
 # ----------------------------------------------------------------------------- generation
 ZZ = {"id": "zz", "name": "zz", "type": "t", "sc": None, "pc": None, "subs": [],
       "props": [{"id": "zp", "name": "zp", "dtype": "int", "values": [{"i": 1}], "raw": False, "card": None}]}
@@ -307,14 +526,30 @@ def gen_history(rng, tier):
 
 # ----------------------------------------------------------------------------- wide stream
 INC_MARK = "@INC"          # placeholder of the include URL (a file of the case's scratch directory)
+TERM_MARK = "@TERM:"       # placeholder of the URL of one of the case's terminologies
 NONASCII = ["\u0661\u0662", "na\u00efve", "a\u2028b", "\u540d\u524d", "x\x85y", "\ud800x"]
 
 
-def build_doc(spec, inc_url="file:///nonexistent/c19inc.xml"):
+def build_doc(spec, inc_url="file:///nonexistent/c19inc.xml", tmp=None):
     """c08.build plus the linking / including Sections of spec["links"], created through the
     public constructor arguments (the state of a freshly built or loaded document: not resolved)."""
     import odml
+    if spec.get("terms"):
+        # round 3: the document names repositories ("@TERM:<key>" in the spec) of its own terminologies
+        urls = register_terms(spec["terms"], spec.get("token", 0), tmp)
+
+        def subst(node):
+            if isinstance(node, dict):
+                return dict((k, subst(v)) for k, v in node.items())
+            if isinstance(node, list):
+                return [subst(v) for v in node]
+            if isinstance(node, str) and node.startswith(TERM_MARK):
+                return urls.get(node[len(TERM_MARK):], node[len(TERM_MARK):])
+            return node
+        spec = subst(spec)
     doc, bt = c08.build({"kind": "doc", "node": spec})
+    if spec.get("repo") is not None:
+        doc.repository = spec["repo"]
     for ln in spec.get("links", []):
         parent = doc
         for i in ln.get("at", []):
@@ -403,9 +638,10 @@ MODEL_MACROS = {"constructSection", "constructProperty", "constructPropertyValue
                 "defaultValidation", "customValidation"}
 
 
-def gen_lib_wide(rng):
-    names = [n for n, _w in LIB_WIDE]
-    m = rng.choices(names, weights=[w for _n, w in LIB_WIDE])[0]
+def gen_lib_wide(rng, table=None):
+    table = table or LIB_WIDE
+    names = [n for n, _w in table]
+    m = rng.choices(names, weights=[w for _n, w in table])[0]
     a = {"t": "lib", "m": m, "arg": rng.randrange(0, 48), "fmt": rng.choice(["XML", "JSON", "YAML"])}
     if m in ("loadFile", "loadString", "parserDirect", "saveVia", "toString"):
         a["fmt"] = rng.choice(["XML", "JSON", "YAML", "XML", "JSON", "YAML", "RDF"])
@@ -423,16 +659,18 @@ def gen_lib_wide(rng):
     return a
 
 
-def gen_handler_wide(rng, klass):
+def gen_handler_wide(rng, klass, px=0.07):
     r = rng.random()
     if r < 0.07:
         return {"c": 4}
-    if r < 0.14 and klass in EXTRA_RULES:
+    if r < 0.07 + px and klass in EXTRA_RULES:
         return {"x": rng.choice(EXTRA_RULES[klass])}
+    if px > 0.07 and rng.random() < 0.12:
+        return {"c": rng.choice([5, 6, 7, 8])}
     return gen_handler(rng, klass)
 
 
-def gen_wide_history(rng):
+def gen_wide_history(rng, table=None, px=0.07):
     acts = []
     users = []          # (handle, reset)
     n = rng.randrange(4, 15)
@@ -457,10 +695,10 @@ def gen_wide_history(rng):
                 u = rng.choice(resets)
             else:
                 u = rng.choice(users)[0]
-            k = rng.choice(KLASSES)
+            k = rng.choice(KLASSES if px <= 0.07 else KLASSES + ["section", "property"])
             # a raising rule on a non-reset object would sit in the class-level table: every later
             # constructor of the history would fail, nothing more would be seen
-            h = gen_handler_wide(rng, k) if dict(users)[u] else gen_handler(rng, k)
+            h = gen_handler_wide(rng, k, px) if dict(users)[u] else gen_handler(rng, k)
             acts.append({"t": "custom", "u": u, "k": k, "h": h})
         elif r < 0.52:
             acts.append({"t": rng.choice(["run", "run", "report"]), "u": rng.choice(users)[0]})
@@ -471,12 +709,173 @@ def gen_wide_history(rng):
             k = rng.choice(KLASSES)
             acts.append({"t": "global", "k": k, "h": gen_handler(rng, k)})
         else:
-            acts.append(gen_lib_wide(rng))
+            acts.append(gen_lib_wide(rng, table))
     for u, _rs in users[:3]:
         acts.append({"t": "run", "u": u})
     acts.append({"t": "default", "u": len(users), "on": None,
                  "via": rng.choice(["Validation", "validate"])})
     return acts
+
+
+# ----------------------------------------------------------------------------- round 3: terminologies
+# wide histories over documents that name repositories: the wide macros plus repository edits
+LIB_WIDE3 = LIB_WIDE + [("setRepo", 10), ("otherDocument", 8)]
+T_TYPES = ["stimulus", "Stimulus", "recording", "subject", "t", "t/sub", "n.s.", "\u00dcber", "u"]
+T_PNAMES = ["Duration", "Contrast", "Luminance", "duration", "a", "b", "zp", "Author"]
+REPO_EDITS = [None, "", " ", "file:///nonexistent/c19_other_repo.xml"]
+
+
+def gen_term(rng, key, types, pnames, kinds):
+    count = [0]
+
+    def mk(depth):
+        count[0] += 1
+        return {"name": "T%d" % count[0], "type": rng.choice(types),
+                "props": rng.sample(pnames, rng.randrange(0, min(5, len(pnames)) + 1)),
+                "subs": [mk(depth - 1) for _ in range(rng.choice([0, 0, 1, 2]) if depth else 0)]}
+    term = {"key": key, "kind": rng.choice(kinds), "secs": [mk(2) for _ in range(rng.choice([1, 2, 2, 3, 4]))]}
+    if term["kind"] == "missing" and rng.random() < 0.3:
+        term["url"] = " "              # a repository that is no URL at all
+    return term
+
+
+def add_terms(rng, doc):
+    """Gives a wide document repositories (on the Document, on Sections, inherited by the rest) that
+    point to terminologies of its own, built from the types and Property names the document uses."""
+    types, pnames = set(["t", "u", "T"]), set(["zp", "a", "b"])
+
+    def collect(sec):
+        if isinstance(sec.get("type"), str) and sec["type"]:
+            types.add(sec["type"])
+        for p in sec["props"]:
+            if isinstance(p.get("name"), str) and p["name"] not in ("", "=id"):
+                pnames.add(p["name"])
+        for c in sec["subs"]:
+            collect(c)
+    for sec in doc["secs"]:
+        collect(sec)
+    types, pnames = sorted(types), sorted(pnames)
+    keys = ["a", "b", "c"][:rng.choice([1, 2, 2, 3])]
+    doc["token"] = rng.randrange(10 ** 9)
+    doc["terms"] = [gen_term(rng, k, types, pnames, ["mem"] * 6 + ["file", "missing"]) for k in keys]
+    if rng.random() < 0.7:
+        doc["repo"] = TERM_MARK + rng.choice(keys)
+
+    def visit(sec):
+        if rng.random() < 0.25:
+            sec.setdefault("x", {})["repository"] = TERM_MARK + rng.choice(keys)
+        for c in sec["subs"]:
+            visit(c)
+    for sec in doc["secs"]:
+        visit(sec)
+    return doc
+
+
+def gen_term_doc(rng, keys):
+    """A small document of the terms stream (built with the plain constructors)."""
+    count = [0]
+
+    def prop():
+        count[0] += 1
+        r = rng.random()
+        vals, dtype, card = [count[0]], None, None
+        if r < 0.15:
+            vals, dtype = ["12"], "string"                 # a dtype hint of a default rule
+        elif r < 0.25:
+            card = [2, None]                               # a cardinality issue of a default rule
+        elif r < 0.35:
+            vals = []
+        return {"name": rng.choice(T_PNAMES), "values": vals, "dtype": dtype, "card": card}
+
+    def sec(depth):
+        count[0] += 1
+        props, used = [], set()
+        for _ in range(rng.choice([0, 1, 2, 2, 3])):
+            p = prop()
+            if p["name"] not in used:
+                used.add(p["name"])
+                props.append(p)
+        return {"name": "s%d" % count[0], "type": rng.choice(T_TYPES[:4] if rng.random() < 0.6 else T_TYPES),
+                "repo": rng.choice(keys) if rng.random() < 0.2 else None, "props": props,
+                "subs": [sec(depth - 1) for _ in range(rng.choice([0, 0, 1, 2]) if depth else 0)]}
+    return {"repo": rng.choice(keys) if rng.random() < 0.75 else None,
+            "secs": [sec(2) for _ in range(rng.choice([0, 1, 1, 1, 2, 2, 3]))]}
+
+
+def gen_terms_case(rng):
+    keys = ["a", "b", "c", "d"][:rng.choice([2, 2, 3, 4])]
+    terms = [gen_term(rng, k, T_TYPES, T_PNAMES, ["mem"] * 7 + ["file", "missing"]) for k in keys]
+    docs = []
+    for _ in range(rng.choice([2, 2, 3, 4])):
+        if docs and rng.random() < 0.4:
+            # the same content once more, under another (or no) repository
+            twin = json.loads(json.dumps(rng.choice(docs)))
+            twin["repo"] = rng.choice(keys + [None])
+            docs.append(twin)
+        else:
+            docs.append(gen_term_doc(rng, keys))
+    both = {"section": [{"x": "section_repository_present"}], "property": [{"x": "property_terminology_check"}]}
+
+    def rules():
+        r = rng.random()
+        out = json.loads(json.dumps(both))
+        if r < 0.15:
+            del out[rng.choice(["section", "property"])]
+        elif r < 0.45:
+            for k in KLASSES:
+                out.setdefault(k, [])
+                for _ in range(rng.choice([1, 2])):
+                    h = gen_handler(rng, k) if rng.random() < 0.8 else {"c": rng.choice([5, 6, 7, 8])}
+                    if h not in out[k]:
+                        out[k].append(h)
+        return out
+
+    def on():
+        r = rng.random()
+        return None if r < 0.7 else ["sec" if r < 0.88 else "prop", rng.randrange(12)]
+    acts, nvals = [], 0
+    for _ in range(rng.randrange(4, 13)):
+        r = rng.random()
+        d = rng.randrange(len(docs))
+        if r < 0.32:
+            mode = rng.choice(["reset", "reset", "reset", "default", "method"])
+            acts.append({"t": "val", "v": nvals, "d": d, "on": None if mode == "method" else on(), "mode": mode,
+                         "rules": rules(), "report": rng.random() < 0.3})
+            nvals += 1
+        elif r < 0.45 and nvals:
+            acts.append({"t": "run", "v": rng.randrange(nvals), "report": rng.random() < 0.3})
+        elif 0.45 <= r < 0.48:
+            k = rng.choice(["section", "property"])
+            acts.append({"t": "global", "k": k, "h": both[k][0]})
+        else:
+            e = rng.choice(["setrepo", "setrepo", "setrepo", "settype", "settype", "renameprop", "addprop",
+                            "addsec", "move", "move", "clone", "clone", "roundtrip", "newdoc", "removesec"])
+            a = {"t": e, "d": d, "at": rng.choice([None, rng.randrange(12)]) if e in ("setrepo", "addsec")
+                 else rng.randrange(12)}
+            if e == "setrepo":
+                a["to"] = rng.choice(keys + keys + REPO_EDITS)
+            elif e == "settype":
+                a["to"] = rng.choice(T_TYPES)
+            elif e in ("renameprop", "addprop"):
+                a["to"] = rng.choice(T_PNAMES)
+            elif e == "addsec":
+                a["type"] = rng.choice(T_TYPES)
+                a["repo"] = rng.choice(keys + [None, None, None])
+            elif e in ("move", "clone"):
+                a["to_d"] = rng.randrange(len(docs))
+                a["to_at"] = rng.choice([None, rng.randrange(12)])
+                a["keep_id"] = rng.random() < 0.5
+            elif e == "roundtrip":
+                a["fmt"] = rng.choice(["XML", "JSON", "YAML"])
+            elif e == "newdoc":
+                a["doc"] = gen_term_doc(rng, keys)
+            acts.append(a)
+    # in the end every document is validated with the two rules, one after the other
+    for d in range(len(docs)):
+        acts.append({"t": "val", "v": nvals, "d": d, "on": None, "mode": "reset",
+                     "rules": json.loads(json.dumps(both)), "report": False})
+        nvals += 1
+    return {"token": rng.randrange(10 ** 9), "terms": terms, "docs": docs, "acts": acts}
 
 
 class Lib(object):
@@ -906,12 +1305,326 @@ class Lib(object):
         if p is not None and p.name != "zp" and id(p) not in self.protected:
             p.parent.remove(p)
 
+    def repo_choice(self, arg):
+        pool = sorted(_TERMS) + [None, ""]
+        return pool[arg % len(pool)]
+
+    def m_setRepo(self, a, arg):
+        # round 3: the repository of the Document or of a Section, edited between validations
+        obj = self.doc if arg % 3 == 0 else self.section(arg // 3)
+        obj.repository = self.repo_choice(arg // 5)
+
+    def m_otherDocument(self, a, arg):
+        # round 3: something else is validated in between - a second document with the same Section
+        # types and Property names that looks into another (or no) terminology
+        from odml import validation
+        other = self.doc.clone(keep_id=bool(arg % 2))
+        other.repository = self.repo_choice(arg // 2)
+        if arg % 4 < 2:
+            for sec in other.itersections(recursive=True):
+                sec.repository = None
+        val = validation.Validation(other, validate=False, reset=True)
+        if arg % 8 < 6:
+            val.register_custom_handler("section", validation.section_repository_present)
+            val.register_custom_handler("property", validation.property_terminology_check)
+        else:
+            for k in KLASSES:
+                for name in RULES_FOR[k]:
+                    val.register_custom_handler(k, getattr(validation, name))
+        val.run_validation()
+
     def m_validateMethod(self, a, arg):
         # the library-side spellings of "validate this": neither may touch the registry
         if arg % 2:
             self.doc.validate()
         else:
             self.doc.validate().report()
+
+
+# ----------------------------------------------------------------------------- terms stream executor
+def index_tree(root, prefix, refs):
+    """id(obj) -> position of the object below root (own traversal, public attributes)."""
+    def sec(s, ref):
+        refs[id(s)] = ref
+        for i, p in enumerate(s.properties):
+            refs[id(p)] = "%s:p%d" % (ref, i)
+        for i, c in enumerate(s.sections):
+            sec(c, "%s/s%d" % (ref, i))
+    name = root.format().name
+    if name == "property":
+        refs[id(root)] = prefix + ":p"
+    elif name == "section":
+        sec(root, prefix)
+    else:
+        refs[id(root)] = prefix
+        for i, c in enumerate(root.sections):
+            sec(c, "%s/s%d" % (prefix, i))
+    return refs
+
+
+def build_user_doc(spec, url):
+    import odml
+    doc = odml.Document()
+    if spec.get("repo") is not None:
+        doc.repository = url(spec["repo"])
+
+    def mk(ss, parent):
+        kw = {}
+        if ss.get("repo") is not None:
+            kw["repository"] = url(ss["repo"])
+        sec = odml.Section(name=ss["name"], type=ss["type"], parent=parent, **kw)
+        for ps in ss.get("props", []):
+            kw = {}
+            if ps.get("dtype"):
+                kw["dtype"] = ps["dtype"]
+            if ps.get("card"):
+                kw["val_cardinality"] = tuple(ps["card"])
+            odml.Property(name=ps["name"], values=ps.get("values", []), parent=sec, **kw)
+        for sub in ss.get("subs", []):
+            mk(sub, sec)
+    for ss in spec.get("secs", []):
+        mk(ss, doc)
+    return doc
+
+
+FINAL_RULES = {"section": [{"x": "section_repository_present"}], "property": [{"x": "property_terminology_check"}]}
+
+
+def exec_terms(case, tmp, saved, validate=True, reverse=False):
+    """One history of the terms stream: several documents that look into several terminologies, validated
+    one after the other with edits in between.  validate=False: the edits only (what another process
+    does that has never validated anything before it looks at the final documents); reverse: the final
+    validations in the opposite order."""
+    import odml
+    from odml.validation import Validation
+    from odml.tools.odmlparser import ODMLWriter, ODMLReader
+    pristine = registry_names()
+    urls = register_terms(case["terms"], case["token"], tmp)
+
+    def url(key):
+        return urls.get(key, key)
+    docs = [build_user_doc(d, url) for d in case["docs"]]
+    start = registry_names()
+    term_docs = []
+    try:
+        import odml.terminology as ot
+        term_docs = [ot.terminologies[u] for u in sorted(urls.values()) if ot.terminologies.get(u) is not None]
+    except Exception:
+        pass
+    vals = {}            # handle -> (Validation, root, table)
+    extra_global = dict((k, []) for k in KLASSES)
+    counter = [0]
+    steps = []
+
+    def fresh():
+        counter[0] += 1
+        return "n%d" % counter[0]
+
+    def sections(d):
+        return list(docs[d % len(docs)].itersections(recursive=True))
+
+    def section(d, at):
+        secs = sections(d)
+        return secs[at % len(secs)] if secs else None
+
+    def props(d):
+        return list(docs[d % len(docs)].iterproperties())
+
+    def target(d, on):
+        doc = docs[d % len(docs)]
+        if not on:
+            return doc
+        pool = sections(d) if on[0] == "sec" else props(d)
+        return pool[on[1] % len(pool)] if pool else doc
+
+    def refs_for(root):
+        refs = {}
+        for i, d in enumerate(docs):
+            index_tree(d, "d%d" % i, refs)
+        if id(root) not in refs:
+            index_tree(root, "x", refs)      # an object that has been taken out of its document
+        return refs
+
+    def world(root):
+        return [deep_snapshot(d) for d in docs] + [deep_snapshot(root)] + [deep_snapshot(t) for t in term_docs]
+
+    def table(rules):
+        return dict((k, [handler_func(h) for h in hs]) for k, hs in rules.items())
+
+    def default_table():
+        return dict((k, list(set(saved.get(k, ())) | set(extra_global[k]))) for k in KLASSES)
+
+    def observe(fn, get_val, root, tab, report):
+        before = world(root)
+        refs = refs_for(root)
+        obs = {}
+        texts = []
+        try:
+            r = fn()
+            if report:
+                texts.append(r)
+            obs["issues"] = c08.issue_list(get_val().errors, refs)
+        except Exception as exc:
+            obs["run_raised"] = fw.exc_name(exc)
+        after = world(root)
+        try:
+            val = get_val()
+            if report:
+                texts.append(val.report())
+            else:
+                val.run_validation()
+            obs["again"] = c08.issue_list(val.errors, refs)
+        except Exception as exc:
+            obs["again_raised"] = fw.exc_name(exc)
+        obs["unchanged"] = before == after and after == world(root)
+        if len(texts) == 2:
+            obs["report_same"] = texts[0] == texts[1]
+        try:
+            obs["expected"] = expected_issues(tab, root, refs)
+        except Exception as exc:
+            obs["expected_failed"] = fw.exc_name(exc)
+        return obs
+
+    for a in case["acts"]:
+        t = a["t"]
+        obs = {}
+        try:
+            if t == "val":
+                if validate:
+                    root = target(a["d"], a.get("on"))
+                    mode = a["mode"]
+                    box = {}
+                    if mode == "reset":
+                        tab = table(a["rules"])
+
+                        def fn(root=root, tab=tab, box=box, a=a):
+                            val = Validation(root, validate=False, reset=True)
+                            box["val"] = val
+                            for k in sorted(tab):
+                                for f in tab[k]:
+                                    val.register_custom_handler(k, f)
+                            return val.report() if a.get("report") else val.run_validation()
+                    else:
+                        tab = default_table()
+
+                        def fn(root=root, box=box, a=a, mode=mode):
+                            box["val"] = root.validate() if mode == "method" else Validation(root)
+                            return box["val"].report() if a.get("report") else None
+                    obs = observe(fn, lambda box=box: box["val"], root, tab, a.get("report"))
+                    if "val" in box:
+                        vals[a["v"]] = (box["val"], root, tab, mode)
+            elif t == "run":
+                if validate and a["v"] in vals:
+                    val, root, tab, mode = vals[a["v"]]
+                    if mode != "reset":
+                        tab = default_table()
+                    obs = observe(val.report if a.get("report") else val.run_validation, lambda val=val: val,
+                                  root, tab, a.get("report"))
+            elif t == "global":
+                f = handler_func(a["h"])
+                Validation.register_handler(a["k"], f)
+                extra_global[a["k"]].append(f)
+            else:
+                # edits: a refusal is not this property's business, the state it leaves behind is
+                try:
+                    d = a["d"] % len(docs)
+                    if t == "setrepo":
+                        obj = docs[d] if a["at"] is None else section(d, a["at"])
+                        obj.repository = url(a["to"])
+                    elif t == "settype":
+                        section(d, a["at"]).type = a["to"]
+                    elif t == "renameprop":
+                        ps = props(d)
+                        ps[a["at"] % len(ps)].name = a["to"]
+                    elif t == "addprop":
+                        odml.Property(name=a["to"], values=[1], parent=section(d, a["at"]))
+                    elif t == "addsec":
+                        parent = docs[d] if a["at"] is None else section(d, a["at"])
+                        kw = {"repository": url(a["repo"])} if a.get("repo") is not None else {}
+                        odml.Section(name=fresh(), type=a["type"], parent=parent, **kw)
+                    elif t in ("move", "clone"):
+                        src = section(d, a["at"])
+                        to_d = a["to_d"] % len(docs)
+                        dest = docs[to_d] if a["to_at"] is None else section(to_d, a["to_at"])
+                        if t == "clone":
+                            cp = src.clone(keep_id=a.get("keep_id", False))
+                            cp.name = fresh()
+                            dest.append(cp)
+                        else:
+                            node, inside = dest, False
+                            while node is not None:
+                                inside = inside or node is src
+                                node = node.parent
+                            if not inside:
+                                src.parent.remove(src)
+                                src.name = fresh()
+                                dest.append(src)
+                    elif t == "removesec":
+                        src = section(d, a["at"])
+                        if len(sections(d)) > 1:
+                            src.parent.remove(src)
+                    elif t == "roundtrip":
+                        text = ODMLWriter(a["fmt"]).to_string(docs[d])
+                        docs[d] = ODMLReader(a["fmt"], show_warnings=False).from_string(text)
+                    elif t == "newdoc":
+                        docs.append(build_user_doc(a["doc"], url))
+                except Exception as exc:
+                    obs["refused"] = fw.exc_name(exc)
+        except Exception as exc:
+            obs["raised"] = fw.exc_name(exc)
+        obs["global"] = registry_names()
+        steps.append(obs)
+
+    # the final look at every document: the two terminology rules and all default rules
+    def final(d):
+        refs = index_tree(d, "d", {})
+        val = Validation(d, validate=False, reset=True)
+        for k in KLASSES:
+            for h in FINAL_RULES.get(k, []) + [{"r": n} for n in RULES_FOR[k]]:
+                val.register_custom_handler(k, handler_func(h))
+        try:
+            val.run_validation()
+            return c08.issue_list(val.errors, refs)
+        except Exception as exc:
+            return ["raised " + fw.exc_name(exc)]
+
+    def expected_final(d):
+        refs = index_tree(d, "d", {})
+        tab = dict((k, [handler_func(h) for h in FINAL_RULES.get(k, []) + [{"r": n} for n in RULES_FOR[k]]])
+                   for k in KLASSES)
+        try:
+            return expected_issues(tab, d, refs)
+        except Exception as exc:
+            return ["raised " + fw.exc_name(exc)]
+    order = list(range(len(docs)))
+    if reverse:
+        order.reverse()
+    finals = dict((i, final(docs[i])) for i in order)
+    out = {"pristine": pristine, "start": start, "steps": steps,
+           "final": [finals[i] for i in range(len(docs))]}
+    if validate:
+        again = dict((i, final(docs[i])) for i in reversed(order))
+        out["final_again"] = [again[i] for i in range(len(docs))]
+        out["final_expected"] = [expected_final(d) for d in docs]
+    return out
+
+
+def child_terms(items, hashseed):
+    """The histories of a termsx batch in another process: no validation before the final ones, the
+    histories and the documents of each in the opposite order."""
+    out = {}
+    for idx in reversed(range(len(items))):
+        import threading
+        before = set(threading.enumerate())
+        saved = registry_copy()
+        tmp = Scratch()
+        try:
+            out[idx] = exec_terms(items[idx], tmp, saved, validate=False, reverse=True)["final"]
+        finally:
+            registry_restore(saved)
+            unregister_terms(before)
+            tmp.remove()
+    return [out[i] for i in range(len(items))]
 
 
 # ----------------------------------------------------------------------------- the check
@@ -937,6 +1650,10 @@ class C19(fw.Check):
         "'changes nothing in the validated objects' and 'same issues in another process' are checked on "
         "the implementation (snapshots, subprocess); in the model a validation is a pure function",
         "user rules are kind-correct (a rule written for Sections is not registered for 'odML')",
+        "terminologies do not change while a history runs (the library keeps a loaded terminology for the "
+        "whole session by design); 'the Section type is present in the terminology' is read as: a Section of "
+        "the terminology, in document order, has that type up to letter case - only for types that are "
+        "non-empty strings, otherwise the harness takes the rule's own answer",
     ]
     rule = ("random documents x random histories (4-16 steps) over: default validation, reset validation, "
             "register_custom_handler (user rules and default rule functions; mostly on reset objects), "
@@ -951,6 +1668,11 @@ class C19(fw.Check):
             "unwritable targets), create objects in every spelling incl. refused ones, set every "
             "cardinality argument shape incl. refused ones, edit attributes and values between runs, "
             "resolve links, register raising user rules and the library's non-default rules. "
+            "Round 3: histories over several documents that look into several terminologies (repository "
+            "on the Document / a Section / inherited / none / unreachable / behind a file URL) validated one "
+            "after the other with the on-demand terminology rules, repository / type / name edits, moves and "
+            "clones between documents and round trips in between; the final issues also compared with a fresh "
+            "process that has validated nothing before and takes the documents in the opposite order. "
             "Non-trivial = a history with at least one registration on a reset validation or a library "
             "macro, or a permutation/xproc case with at least one issue.")
 
@@ -977,21 +1699,43 @@ class C19(fw.Check):
             cases.append({"stream": "xproc", "hashseed": rng.randrange(1, 4000), "locale": bool(b % 2),
                           "roundtrip": True,
                           "docs": [gen_wide_doc(rng, zz=rng.random() < 0.8) for _ in range(25 if quick else 150)]})
+        # ---- added after seeded round 3 (again drawn after everything above)
+        for _ in range(350 if quick else 8000):
+            cases.append(dict(gen_terms_case(rng), stream="terms"))
+        for _ in range(200 if quick else 5000):
+            cases.append({"stream": "wide", "doc": add_terms(rng, gen_wide_doc(rng)),
+                          "acts": gen_wide_history(rng, LIB_WIDE3, 0.55)})
+        for b in range(3 if quick else 12):
+            cases.append({"stream": "termsx", "hashseed": rng.randrange(1, 4000), "locale": b % 3 == 2,
+                          "items": [gen_terms_case(rng) for _ in range(40 if quick else 150)]})
+        for b in range(1 if quick else 4):
+            # the documents of a batch in the opposite order over there: what has been validated before
+            # a document must not matter for the default rules either
+            cases.append({"stream": "xproc", "hashseed": rng.randrange(1, 4000), "roundtrip": True,
+                          "order": "reversed",
+                          "docs": [gen_wide_doc(rng, zz=rng.random() < 0.8) for _ in range(25 if quick else 150)]})
         return cases
 
     # -- implementation ------------------------------------------------------
     def impl(self, case):
+        import threading
         saved = registry_copy()
         tmp = Scratch()
+        threads = set(threading.enumerate())
         try:
             st = case["stream"]
             if st in ("history", "wide"):
                 return self.run_history(case, tmp, saved)
             if st == "perm":
                 return self.run_perm(case)
+            if st == "terms":
+                return exec_terms(case, tmp, saved)
+            if st == "termsx":
+                return self.run_termsx(case)
             return self.run_xproc(case)
         finally:
             registry_restore(saved)
+            unregister_terms(threads)
             tmp.remove()
             if tmp.path is not None:
                 self.drop_include_cache()
@@ -1033,7 +1777,7 @@ class C19(fw.Check):
         pristine = registry_names()
         inc_url = self.include_file(tmp) if any(ln.get("include") for ln in case["doc"].get("links", [])) \
             else "file:///nonexistent/c19inc.xml"
-        doc, _bt = build_doc(case["doc"], inc_url)
+        doc, _bt = build_doc(case["doc"], inc_url, tmp)
         start = registry_names()
         lib = Lib(doc, tmp, inc_url, strict=case["stream"] == "history")
         insts = {}
@@ -1092,7 +1836,7 @@ class C19(fw.Check):
                 obs["report_same"] = texts[0] == texts[1]
             # what this object has to report, computed by applying handlers directly
             try:
-                obs["expected"] = apply_directly(table_of(u), root, refs)
+                obs["expected"] = expected_issues(table_of(u), root, refs)
             except Exception as exc:
                 obs["expected_failed"] = fw.exc_name(exc)
             return obs
@@ -1123,10 +1867,7 @@ class C19(fw.Check):
                 obs["again_raised"] = fw.exc_name(exc)
             obs["unchanged"] = before == snap(root) and after == full_snapshot(doc, (obj, root))
             try:
-                out = []
-                for h in table_of(u).get(klass, ()):
-                    out.extend(h(obj))
-                obs["expected"] = c08.issue_list(out, refs)
+                obs["expected"] = c08.issue_list(expected_of(table_of(u).get(klass, ()), klass, obj), refs)
             except Exception as exc:
                 obs["expected_failed"] = fw.exc_name(exc)
             return obs
@@ -1256,8 +1997,8 @@ class C19(fw.Check):
         return {"kind": kind, "node": node, "orders": orders, "results": results, "default": default,
                 "method": method, "unchanged": all(s == snaps[0] for s in snaps)}
 
-    def run_xproc(self, case):
-        here = child_validate(case["docs"], case.get("roundtrip", False))
+    @staticmethod
+    def child_env(case):
         env = dict(os.environ)
         env["PYTHONHASHSEED"] = str(case["hashseed"])
         env["ODML_REPO"] = fw.REPO
@@ -1268,7 +2009,34 @@ class C19(fw.Check):
             env["LANG"] = "C"
             env["PYTHONUTF8"] = "0"
             env["PYTHONCOERCECLOCALE"] = "0"
-        cmd = [sys.executable, os.path.abspath(__file__), "--child"] + (["--roundtrip"] if case.get("roundtrip") else [])
+        return env
+
+    def run_termsx(self, case):
+        import threading
+        here = []
+        for item in case["items"]:
+            saved = registry_copy()
+            tmp = Scratch()
+            threads = set(threading.enumerate())
+            try:
+                here.append(exec_terms(item, tmp, saved))
+            finally:
+                registry_restore(saved)
+                unregister_terms(threads)
+                tmp.remove()
+        cmd = [sys.executable, os.path.abspath(__file__), "--child-terms"]
+        proc = subprocess.run(cmd, input=json.dumps(case["items"]).encode("utf-8"), env=self.child_env(case),
+                              stdout=subprocess.PIPE, stderr=subprocess.PIPE, timeout=900)
+        if proc.returncode != 0:
+            return {"child_failed": proc.stderr.decode("utf-8", "replace")[-600:], "here": here}
+        there = json.loads(proc.stdout.decode("utf-8").strip().splitlines()[-1])
+        return {"here": here, "there": there}
+
+    def run_xproc(self, case):
+        here = child_validate(case["docs"], case.get("roundtrip", False))
+        env = self.child_env(case)
+        cmd = [sys.executable, os.path.abspath(__file__), "--child"] + (["--roundtrip"] if case.get("roundtrip") else []) \
+            + (["--reversed"] if case.get("order") == "reversed" else [])
         proc = subprocess.run(cmd, input=json.dumps(case["docs"]).encode("utf-8"), env=env,
                               stdout=subprocess.PIPE, stderr=subprocess.PIPE, timeout=600)
         if proc.returncode != 0:
@@ -1388,6 +2156,40 @@ class C19(fw.Check):
                            % (i, what, u, extra[:4], missing[:4]))
         return True
 
+    def judge_terms(self, out, case, obs, label):
+        """The clauses of one history of the terms stream."""
+        if obs["start"] != obs["pristine"]:
+            out.append("%sbuilding the documents changed the default registry: %s -> %s"
+                       % (label, obs["pristine"], obs["start"]))
+        prev = obs["start"]
+        for i, (a, step) in enumerate(zip(case["acts"], obs["steps"])):
+            t = a["t"]
+            if "raised" in step:
+                out.append("%sstep %d (%s) raised %s" % (label, i, t, step["raised"]))
+                break
+            want = prev
+            if t == "global":
+                want = dict(prev)
+                want[a["k"]] = sorted(set(prev[a["k"]]) | {handler_func(a["h"]).__name__})
+            if step["global"] != want:
+                out.append("%sstep %d (%s) changed the default registry: %s -> %s"
+                           % (label, i, t, prev, step["global"]))
+            prev = step["global"]
+            if "unchanged" in step:
+                what = "%s%s of document %s" % (label, t, a.get("d", "?"))
+                if not self.judge_validation(out, i, what, a.get("v"), step):
+                    break
+        for d, (one, two) in enumerate(zip(obs["final"], obs.get("final_again", obs["final"]))):
+            if one != two:
+                out.append("%sdocument %d: validating the unchanged document again (after the other documents "
+                           "have been validated) reports %s, before %s" % (label, d, two[:6], one[:6]))
+        for d, (one, exp) in enumerate(zip(obs["final"], obs.get("final_expected", obs["final"]))):
+            if one != exp:
+                extra = [x for x in one if x not in exp]
+                missing = [x for x in exp if x not in one]
+                out.append("%sdocument %d: the final validation does not report what its rules yield on this "
+                           "document: unexpected %s, missing %s" % (label, d, extra[:4], missing[:4]))
+
     def oracle(self, case, obs):
         if "harness_exception" in obs:
             return []
@@ -1421,6 +2223,20 @@ class C19(fw.Check):
                 if "loaded" in step:
                     self.judge_validation(out, i, "default validation of the document loaded by lib:" + a["m"],
                                           "loaded", step["loaded"])
+        elif st == "terms":
+            self.judge_terms(out, case, obs, "")
+        elif st == "termsx":
+            for n, (item, got) in enumerate(zip(case["items"], obs["here"])):
+                self.judge_terms(out, item, got, "history %d, " % n)
+            if "child_failed" in obs:
+                out.append("validation in a fresh process failed: %s" % obs["child_failed"][-200:])
+            else:
+                for n, (got, there) in enumerate(zip(obs["here"], obs["there"])):
+                    if [list(map(list, x)) for x in got["final"]] != [list(map(list, x)) for x in there]:
+                        bad = [i for i, (x, y) in enumerate(zip(got["final"], there)) if list(map(list, x)) != list(map(list, y))]
+                        out.append("history %d, documents %s: a process that has validated nothing else before "
+                                   "reports other issues on the same documents (here %s, there %s)"
+                                   % (n, bad[:4], [got["final"][i] for i in bad[:1]], [there[i] for i in bad[:1]]))
         elif st == "perm":
             if "skipped" in obs:
                 return []
@@ -1441,6 +2257,11 @@ class C19(fw.Check):
                 out.append("documents %s: another process reports different issues" % bad[:5])
         return out
 
+    def finding_key(self, case, obs, failure):
+        # no open finding: terminology-cache-copy-in-locale-encoding was repaired by 0da7400, so a
+        # cross-process difference under the C locale is a violation again
+        return None
+
     def tag(self, case, obs):
         st = case["stream"]
         if st in ("history", "wide"):
@@ -1454,6 +2275,10 @@ class C19(fw.Check):
             return ("%s:%s%s%s" % (st, "global" if glob else "clean", "+custom" if priv else "", extra), priv)
         if st == "perm":
             return ("perm", bool(obs.get("default")))
+        if st == "terms":
+            return ("terms", any(s.get("issues") for s in obs.get("steps", [])))
+        if st == "termsx":
+            return ("termsx", any(any(h.get("final", [])) for h in obs.get("here", [])))
         return ("xproc", any(obs.get("here", [])))
 
 
@@ -1527,7 +2352,16 @@ if __name__ == "__main__":
     if len(sys.argv) > 1 and sys.argv[1] == "--child":
         specs = json.loads(sys.stdin.read())
         with fw.quiet():
-            res = child_validate(specs, "--roundtrip" in sys.argv[2:])
+            if "--reversed" in sys.argv[2:]:
+                res = child_validate(specs[::-1], "--roundtrip" in sys.argv[2:])[::-1]
+            else:
+                res = child_validate(specs, "--roundtrip" in sys.argv[2:])
+        sys.stdout.write(json.dumps(res) + "\n")
+        sys.exit(0)
+    if len(sys.argv) > 1 and sys.argv[1] == "--child-terms":
+        specs = json.loads(sys.stdin.read())
+        with fw.quiet():
+            res = child_terms(specs, None)
         sys.stdout.write(json.dumps(res) + "\n")
         sys.exit(0)
     sys.exit(fw.main(C19(), sys.argv[1:]))
